@@ -230,3 +230,8 @@ def freeze(o: t.Any) -> t.Any:
     if hasattr(o, "__dict__"):
         return (type(o).__qualname__,) + freeze(vars(o))
     return repr(o)
+
+
+def protocol_view(session: t.Any) -> t.Any:
+    """Canonical form of everything except raw byte buffers (what draining may legitimately change)."""
+    return tuple(sorted(((k, freeze(v)) for k, v in vars(session).items() if not isinstance(v, (bytes, bytearray, memoryview))), key=repr))
